@@ -20,6 +20,7 @@ package main
 
 import (
 	"bytes"
+	"context"
 	"fmt"
 	"io"
 	"net/http"
@@ -729,6 +730,10 @@ func TestC16(t *testing.T) {
 		c16Child(t, name)
 		return
 	}
+	if spec := os.Getenv("C16_CMDCHILD"); spec != "" {
+		c16CmdChild(spec)
+		return
+	}
 	R := ev.New("C16")
 	R.Rule = "per parser: ALL strings of <= L tokens over its token alphabet (L=5 quick / 6 thorough), every seed document, ALL single edits of every seed at every position {delete byte, 8 bit flips, insert each token, duplicate next 1/2/4/8 bytes, truncate}, ALL ordered pairs of such edits on seeds <= 40 (thorough 120) bytes, ALL splices seedA[:i]+seedB[j:] (quick: every second ordered seed pair); stream parsers also with a source that returns 1 byte per Read for seeds and single edits. evaluations = parser calls under the oracle; states = distinct (parser, behaviour) classes (values produced, normalised error); distinct_nontrivial = distinct (parser, input bytes) that made the parser produce at least one value (result / target / bucket list / accepted flag value)"
 	R.Assume("allocation bound (TotalAlloc delta, GC off, single goroutine) is measured in a separate sequential pass over: every seed, all single edits of every seed, and all token strings of <= 3 (thorough 4) tokens; the parallel pass cannot attribute allocation to a call")
@@ -1073,7 +1078,7 @@ func c16Commands(t *testing.T, R *ev.Run) {
 			}
 		}
 	}
-	for _, j := range []string{"", "\n", "hello world\n", "{}", "{}\n", "{\"code\":200}\n", "1,2,3\n", "\x00\x01\x02\x03", "GET http://x/\n", strings.Repeat("z", 70000)} {
+	for _, j := range []string{"hello world\n", "{}", "{}\n", "{\"code\":200}\n", "1,2,3\n", "\x00\x01\x02\x03", "GET http://x/\n", strings.Repeat("z", 70000)} {
 		inputs = append(inputs, []byte(j))
 	}
 	dir := t.TempDir()
@@ -1118,4 +1123,53 @@ func c16Commands(t *testing.T, R *ev.Run) {
 		}
 	}
 	R.Part("commands", "damaged or foreign result files", len(inputs))
+
+	// inputs that hold no record at all: each command runs in a child process of its own, so that a command
+	// that never returns (e.g. decoding nothing for ever) is observed - and ended - from outside
+	degenerate := []string{"", "\n", "\n\n\n", " ", "\r\n"}
+	for di, in := range degenerate {
+		f := filepath.Join(dir, fmt.Sprintf("c16cmd-degenerate-%d", di))
+		os.WriteFile(f, []byte(in), 0o644)
+		for _, name := range []string{"encode", "report", "plot"} {
+			ctx, cancel := context.WithTimeout(context.Background(), 15*time.Second)
+			cmd := exec.CommandContext(ctx, os.Args[0], "-test.run=^TestC16$", "-test.v")
+			cmd.Env = append(os.Environ(), "C16_CMDCHILD="+name+":"+f)
+			outb, err := cmd.CombinedOutput()
+			timedOut := ctx.Err() != nil
+			cancel()
+			os.Remove(f + ".out")
+			R.Eval(1)
+			R.Trans(1)
+			R.Part("commands", "degenerate inputs in child processes", 1)
+			so := string(outb)
+			det := map[string]any{"input": fmt.Sprintf("%q", in), "command": name}
+			switch {
+			case timedOut:
+				R.Violation("cmd-"+name+":does-not-return-on-an-input-without-records", det)
+			case strings.Contains(so, "panic:") || strings.Contains(so, "fatal error"):
+				det["output"] = ev.Trunc(so, 400)
+				R.Violation("cmd-"+name+":panic", det)
+			case !strings.Contains(so, "C16CMD-DONE"):
+				R.Cap("command child for " + name + " ended without a verdict: " + ev.Trunc(so, 200) + fmt.Sprint(err))
+			}
+		}
+		os.Remove(f)
+	}
+}
+
+// c16CmdChild runs one command on one file (C16_CMDCHILD=<command>:<file>) and reports that it returned.
+func c16CmdChild(spec string) {
+	i := strings.IndexByte(spec, ':')
+	name, in := spec[:i], spec[i+1:]
+	o := in + ".out"
+	var err error
+	switch name {
+	case "encode":
+		err = encode([]string{in}, "json", o)
+	case "report":
+		err = report([]string{in}, "json", o, 0, "")
+	case "plot":
+		err = plotRun([]string{in}, 0, "t", o)
+	}
+	fmt.Printf("C16CMD-DONE %v\n", err != nil)
 }
